@@ -2,12 +2,12 @@
    wf t : every Create k finds no live key with the same slot index, every Next/Done k finds k live.
    The theorem covers the output of EVERY pipeline of the grammar; since every prefix of a pipeline
    is itself a pipeline, it covers every boundary between two operators of a (possibly nested) flat
-   pipeline.  The protocol of the traces that group_by / roll / split / time_split feed to their
-   inner pipelines is a proof obligation discharged inside group_refines / roll_refines /
-   seg_refines (lemmas allowed_dones, allowed_batches, acts_allowed), without which
-   C02_master_refinement would not hold; it is not restated here. *)
+   pipeline.  C03_inner_* : the trace that group_by, split, time_split and roll (window = stride) feed
+   to their inner pipeline is well-formed whenever the outer trace is (stated on the heads alone, for
+   any inner pipeline); for the sliding roll (window <> stride) the same fact is discharged inside
+   roll_refines (allowed_batches, ring_free) and not restated. *)
 From Coq Require Import List ZArith.
-From RxVerif Require Import Mux.Val Mux.Sim Mux.SimExt Mux.Ops Mux.Syntax Mux.ConfineProofs Mux.MasterProofs.
+From RxVerif Require Import Mux.Val Mux.Sim Mux.SimExt Mux.Seg Mux.Ops Mux.Syntax Mux.ConfineProofs Mux.MasterProofs Mux.InnerProtocolProofs.
 Import ListNotations.
 
 Theorem C03_output_protocol : forall (P : list op) (t : list iev), wf t ->
@@ -20,6 +20,29 @@ Corollary C03_closed_at_completion : forall (P : list op) (t : list iev), wf t -
   after_seq [] (concat (raw_run P t)) = [].
 Proof. intros P t Ht Hc. rewrite (proj2 (pipe_output_wf P t Ht)). exact Hc. Qed.
 Print Assumptions C03_closed_at_completion.
+
+(* heads: what is fed to the inner pipeline is a well-formed trace (no Create on a live slot, items and
+   completions only for live inner keys), for EVERY well-formed outer trace *)
+Theorem C03_inner_segment_heads : forall (V Sg : Type) (sg0 : Sg) (sg_next : Sg -> V -> Sg * list (act V)) (sg_open : Sg -> bool),
+  sg_open sg0 = false ->
+  (forall s x, acts_ok V (sg_open s) (snd (sg_next s x)) = Some (sg_open (fst (sg_next s x)))) ->
+  forall t, allowed_seq [] t -> allowed_seq [] (inner_trace V Sg sg0 sg_next sg_open [] t).
+Proof. exact seg_inner_wf0. Qed.
+Print Assumptions C03_inner_segment_heads.
+Theorem C03_inner_segment_heads_feed : forall (V Sg : Type) (sg0 : Sg) (sg_next : Sg -> V -> Sg * list (act V)) (sg_open : Sg -> bool)
+  (I : machine V) slots si e,
+  fst (step (seg_m V Sg sg0 sg_next sg_open I) (slots, si) e)
+  = (seg_slots V Sg sg0 sg_next slots e, fst (feed I si (seg_feed V Sg sg0 sg_next sg_open slots e))).
+Proof. exact seg_m_feeds. Qed.
+Print Assumptions C03_inner_segment_heads_feed.
+Theorem C03_inner_group_by : forall (V G : Type) (geq : forall a b : G, {a = b} + {a <> b}) (km : V -> G) t,
+  allowed_seq [] t -> allowed_seq [] (group_inner_trace V G geq km ([], 0) t).
+Proof. exact group_inner_wf0. Qed.
+Print Assumptions C03_inner_group_by.
+Theorem C03_inner_group_by_feed : forall (V G : Type) (geq : forall a b : G, {a = b} + {a <> b}) (km : V -> G) (I : machine V) st si e,
+  fst (step (group_m V G geq km I) (st, si) e) = (group_next V G geq km st e, fst (feed I si (group_feed V G geq km st e))).
+Proof. exact group_m_feeds. Qed.
+Print Assumptions C03_inner_group_by_feed.
 
 Example C03_example :
   concat (raw_run [OGroup (FMod 2) [OScan A2Count (VInt 0) TInt true None]]
